@@ -84,16 +84,47 @@ Proof. unfold pread. now rewrite firstn_length, skipn_length. Qed.
 Lemma pread_nil data off n : (length data <= off)%nat -> pread data off n = [].
 Proof. intros H. unfold pread. rewrite skipn_all2 by lia. apply firstn_nil. Qed.
 
-Lemma pwrite_length data off b :
-  length (pwrite data off b) = Nat.max (length data) (off + length b).
+(* pwrite on a non-empty payload, written out; a zero-length write is the identity *)
+Definition pwrite_raw (data : bytes) (off : nat) (b : bytes) : bytes :=
+  firstn off (data ++ zeros (off - length data)) ++ b ++ skipn (off + length b) data.
+
+Lemma pwrite_nil data off : pwrite data off [] = data.
+Proof. reflexivity. Qed.
+
+Lemma pwrite_nonempty data off b : b <> [] -> pwrite data off b = pwrite_raw data off b.
+Proof. intros Hb. destruct b; [congruence | reflexivity]. Qed.
+
+(* within the file (off <= length) the written-out form is also the identity on [] *)
+Lemma pwrite_raw_nil_within data off : (off <= length data)%nat -> pwrite_raw data off [] = data.
 Proof.
-  unfold pwrite. rewrite !app_length, firstn_length, skipn_length, app_length, zeros_length. lia.
+  intros H. unfold pwrite_raw. replace (off - length data)%nat with 0%nat by lia.
+  cbn [zeros repeat length app]. rewrite app_nil_r, Nat.add_0_r. apply firstn_skipn.
 Qed.
 
-Lemma pwrite_before data off b :
-  firstn (Nat.min off (length data)) (pwrite data off b) = firstn (Nat.min off (length data)) data.
+Lemma pwrite_raw_length data off b :
+  length (pwrite_raw data off b) = Nat.max (length data) (off + length b).
 Proof.
-  unfold pwrite. rewrite firstn_app, firstn_firstn.
+  unfold pwrite_raw. rewrite !app_length, firstn_length, skipn_length, app_length, zeros_length. lia.
+Qed.
+
+Lemma pwrite_length data off b : b <> [] ->
+  length (pwrite data off b) = Nat.max (length data) (off + length b).
+Proof. intros Hb. rewrite pwrite_nonempty by assumption. apply pwrite_raw_length. Qed.
+
+(* both cases at once *)
+Lemma pwrite_length_gen data off b :
+  length (pwrite data off b) =
+  match b with [] => length data | _ => Nat.max (length data) (off + length b) end.
+Proof. destruct b as [|x b]; [reflexivity|]. apply pwrite_length. discriminate. Qed.
+
+(* a write never shrinks the file *)
+Lemma pwrite_length_ge data off b : (length data <= length (pwrite data off b))%nat.
+Proof. rewrite pwrite_length_gen. destruct b; lia. Qed.
+
+Lemma pwrite_raw_before data off b :
+  firstn (Nat.min off (length data)) (pwrite_raw data off b) = firstn (Nat.min off (length data)) data.
+Proof.
+  unfold pwrite_raw. rewrite firstn_app, firstn_firstn.
   rewrite firstn_length, app_length, zeros_length.
   replace (Nat.min off (length data) - Nat.min off (length data + (off - length data)))%nat with 0%nat by lia.
   cbn [firstn]. rewrite app_nil_r.
@@ -103,31 +134,43 @@ Proof.
   cbn [firstn]. now rewrite app_nil_r.
 Qed.
 
+(* holds for every payload, the empty one included *)
+Lemma pwrite_before data off b :
+  firstn (Nat.min off (length data)) (pwrite data off b) = firstn (Nat.min off (length data)) data.
+Proof. destruct b as [|x b]; [reflexivity|]. rewrite pwrite_nonempty by discriminate. apply pwrite_raw_before. Qed.
+
 Lemma pwrite_prefix_len (data : bytes) off :
   length (firstn off (data ++ zeros (off - length data))) = off.
 Proof. rewrite firstn_length, app_length, zeros_length. lia. Qed.
 
+(* holds for every payload: for [] both sides are [] *)
 Lemma pwrite_at data off b : pread (pwrite data off b) off (length b) = b.
 Proof.
-  unfold pread, pwrite.
+  destruct b as [|x b]; [reflexivity|]. rewrite pwrite_nonempty by discriminate.
+  unfold pread, pwrite_raw.
   rewrite <- (pwrite_prefix_len data off) at 1.
   rewrite skipn_app_exact. apply firstn_app_exact.
 Qed.
 
+(* holds for every payload *)
 Lemma pwrite_after data off b :
   skipn (off + length b) (pwrite data off b) = skipn (off + length b) data.
 Proof.
-  unfold pwrite. rewrite app_assoc.
-  set (pre := firstn off (data ++ zeros (off - length data)) ++ b).
-  assert (Hl : length pre = (off + length b)%nat).
+  destruct b as [|x b]; [reflexivity|]. rewrite pwrite_nonempty by discriminate.
+  unfold pwrite_raw. rewrite app_assoc.
+  set (bb := x :: b).
+  set (pre := firstn off (data ++ zeros (off - length data)) ++ bb).
+  assert (Hl : length pre = (off + length bb)%nat).
   { unfold pre. now rewrite app_length, pwrite_prefix_len. }
   rewrite <- Hl at 1. apply skipn_app_exact.
 Qed.
 
-Lemma pwrite_gap_zero data off b j d :
+(* only a write that writes something fills the gap (a zero-length write past EOF leaves the
+   file as it is: there is no position j with length data <= j in it) *)
+Lemma pwrite_gap_zero data off b j d : b <> [] ->
   (length data <= j < off)%nat -> nth j (pwrite data off b) d = 0%N.
 Proof.
-  intros Hj. unfold pwrite.
+  intros Hb Hj. rewrite pwrite_nonempty by assumption. unfold pwrite_raw.
   rewrite app_nth1 by (rewrite pwrite_prefix_len; lia).
   rewrite nth_firstn_lt by lia.
   rewrite app_nth2 by lia. apply nth_zeros. lia.
@@ -171,10 +214,10 @@ Lemma slice_pread data a k : 0 <= a -> 0 <= k ->
   slice data a (a + k) = pread data (Z.to_nat a) (Z.to_nat k).
 Proof. intros Ha Hk. unfold slice, pread. do 2 f_equal. lia. Qed.
 
-(* both branches of File.Write *)
-Lemma go_write_pwrite data b cur : 0 <= cur -> go_write data b cur = pwrite data (Z.to_nat cur) b.
+(* both branches of File.Write, for any payload: the written-out form *)
+Lemma go_write_raw data b cur : 0 <= cur -> go_write data b cur = pwrite_raw data (Z.to_nat cur) b.
 Proof.
-  intros Hcur. unfold go_write, pwrite, zlen.
+  intros Hcur. unfold go_write, pwrite_raw, zlen.
   assert (Htail : (if Z.of_nat (length b) + cur <? Z.of_nat (length data)
                    then skipn (Z.to_nat (Z.of_nat (length b) + cur)) data else [])
                   = skipn (Z.to_nat cur + length b) data).
@@ -191,6 +234,45 @@ Proof.
     replace (Z.to_nat cur - length data)%nat with 0%nat by lia.
     cbn [zeros repeat]. rewrite app_nil_r. now rewrite <- app_assoc.
 Qed.
+
+(* File.Write only reaches the slice arithmetic with a non-empty payload, and there it is pwrite *)
+Lemma go_write_pwrite data b cur : 0 <= cur -> b <> [] ->
+  go_write data b cur = pwrite data (Z.to_nat cur) b.
+Proof. intros Hcur Hb. rewrite pwrite_nonempty by assumption. now apply go_write_raw. Qed.
+
+(* on an empty payload the slice arithmetic agrees with pwrite exactly when cur is within the file;
+   past EOF it would zero-extend (which is why f_write returns before reaching it) *)
+Lemma go_write_nil_within data cur : 0 <= cur <= zlen data ->
+  go_write data [] cur = pwrite data (Z.to_nat cur) [].
+Proof.
+  intros H. rewrite go_write_raw by lia. rewrite pwrite_nil. apply pwrite_raw_nil_within.
+  unfold zlen in H. lia.
+Qed.
+
+Lemma go_write_nil_beyond data cur : zlen data < cur ->
+  go_write data [] cur = data ++ zeros (Z.to_nat cur - length data) /\
+  go_write data [] cur <> pwrite data (Z.to_nat cur) [].
+Proof.
+  intros H. unfold zlen in H.
+  assert (Hg : go_write data [] cur = data ++ zeros (Z.to_nat cur - length data)).
+  { rewrite go_write_raw by lia. unfold pwrite_raw.
+    rewrite firstn_all2 by (rewrite app_length, zeros_length; lia).
+    rewrite skipn_all2 by (cbn [length]; lia). now rewrite !app_nil_r. }
+  split; [exact Hg|]. rewrite Hg, pwrite_nil. intros Heq.
+  apply (f_equal (@length _)) in Heq. rewrite app_length, zeros_length in Heq. lia.
+Qed.
+
+Lemma zlen_zero_iff {A} (l : list A) : zlen l =? 0 = true <-> l = [].
+Proof.
+  unfold zlen. rewrite Z.eqb_eq. destruct l; cbn [length]; split; intros H; try reflexivity; try discriminate; lia.
+Qed.
+
+(* the content after a step that reports "unchanged" as None *)
+Definition dflt (d : option bytes) (data : bytes) : bytes :=
+  match d with Some d' => d' | None => data end.
+
+Lemma upd_d_dflt s d : upd_d s d = mkFS (dflt d (fdata s)) (fhandles s).
+Proof. destruct d; [reflexivity|]. now destruct s. Qed.
 
 (* both branches of File.Truncate *)
 Lemma go_truncate_ptrunc data size : 0 <= size ->
@@ -326,16 +408,21 @@ Lemma sim_write data h b bs o : hrel h b -> 0 <= hat h ->
   snd x <> RPanic /\
   if bclosed b then fst (fst x) = None /\ snd (fst x) = h /\ proj o (snd x) = PErr C_CLOSED
   else if bro b then fst (fst x) = None /\ snd (fst x) = h /\ proj o (snd x) = PErr C_READONLY
-  else fst (fst x) = Some (pwrite data (Z.to_nat (hat h)) bs) /\
+  else dflt (fst (fst x)) data = pwrite data (Z.to_nat (hat h)) bs /\
        snd (fst x) = set_at h (hat h + zlen bs) /\
        proj o (snd x) = PCount (length bs).
 Proof.
   intros [Ha [Hc Hr]] Hat. unfold f_write. rewrite Hc, Hr.
   destruct (bclosed b); [cbn; repeat split; discriminate|].
   destruct (bro b); [cbn; repeat split; discriminate|].
-  destruct (hat h <? 0) eqn:E; [apply Z.ltb_lt in E; lia|].
-  cbn [fst snd]. split; [discriminate|]. rewrite go_write_pwrite by assumption.
-  repeat split. cbn [proj]. unfold zlen. now rewrite Nat2Z.id.
+  destruct (zlen bs =? 0) eqn:Ez.
+  - (* n == 0: content and handle stay, as in the specification *)
+    apply zlen_zero_iff in Ez. subst bs. cbn [fst snd dflt zlen length Z.of_nat].
+    rewrite Z.add_0_r, set_at_same, pwrite_nil. repeat split. discriminate.
+  - assert (Hne : bs <> []) by (intros ->; discriminate Ez).
+    destruct (hat h <? 0) eqn:E; [apply Z.ltb_lt in E; lia|].
+    cbn [fst snd dflt]. split; [discriminate|]. rewrite go_write_pwrite by assumption.
+    repeat split. cbn [proj]. unfold zlen. now rewrite Nat2Z.id.
 Qed.
 
 Lemma sim_writeat data h b bs off o : hrel h b ->
@@ -344,7 +431,7 @@ Lemma sim_writeat data h b bs off o : hrel h b ->
   if off <? 0 then fst (fst x) = None /\ proj o (snd x) = PErr C_INVALID
   else if bclosed b then fst (fst x) = None /\ proj o (snd x) = PErr C_CLOSED
   else if bro b then fst (fst x) = None /\ proj o (snd x) = PErr C_READONLY
-  else fst (fst x) = Some (pwrite data (Z.to_nat off) bs) /\ proj o (snd x) = PCount (length bs).
+  else dflt (fst (fst x)) data = pwrite data (Z.to_nat off) bs /\ proj o (snd x) = PCount (length bs).
 Proof.
   intros [Ha [Hc Hr]]. unfold f_writeat. destruct (off <? 0) eqn:Eo.
   - cbn. repeat split; discriminate.
@@ -356,7 +443,8 @@ Proof.
     destruct (f_write data (set_at h off) bs) as [[d h1] r]. cbn [fst snd] in *.
     destruct Hw as [Hnp Hw]. split; [exact Hnp|].
     destruct (bclosed b); [destruct Hw as [-> [-> Hp]]; rewrite set_at_set_at, set_at_same; auto|].
-    destruct (bro b); destruct Hw as [-> [-> Hp]]; rewrite !set_at_set_at, set_at_same; auto.
+    destruct (bro b); [destruct Hw as [-> [-> Hp]]; rewrite !set_at_set_at, set_at_same; auto|].
+    destruct Hw as [Hd [-> Hp]]. rewrite !set_at_set_at, set_at_same. auto.
 Qed.
 
 Lemma sim_seek data h b off wh o : hrel h b ->
@@ -444,7 +532,7 @@ Proof.
     + destruct (bclosed b) eqn:Ecl; [|destruct (bro b) eqn:Ero]; cbn [fst].
       * destruct Hs as [-> [-> _]]. cbn [upd_d upd_h fdata fhandles]. now apply Rel_same_h with (b := b).
       * destruct Hs as [-> [-> _]]. cbn [upd_d upd_h fdata fhandles]. now apply Rel_same_h with (b := b).
-      * destruct Hs as [-> [-> _]]. cbn [upd_d upd_h fdata fhandles].
+      * destruct Hs as [Hdd [-> _]]. rewrite upd_d_dflt. cbn [upd_h fdata fhandles]. rewrite Hdd.
         destruct Hhb as [Ha [Hc Hr]]. rewrite Ha, Nat2Z.id. split; [reflexivity|].
         cbn [fhandles bhs]. apply F2_set; [exact HF|].
         unfold hrel. destruct h; cbn in *. unfold zlen. repeat split; try lia; congruence.
@@ -454,7 +542,8 @@ Proof.
     destruct (f_writeat d h bb off) as [[dd h'] r]. cbn [fst snd] in *.
     destruct Hs as [Hnp [-> Hs]]. split; [|split; [|exact Hnp]].
     + destruct (off <? 0); [|destruct (bclosed b); [|destruct (bro b)]]; cbn [fst];
-        destruct Hs as [-> _]; cbn [upd_d upd_h fdata fhandles]; try now apply Rel_same_h with (b := b).
+        try (destruct Hs as [-> _]; cbn [upd_d upd_h fdata fhandles]; now apply Rel_same_h with (b := b)).
+      destruct Hs as [Hdd _]. rewrite upd_d_dflt. cbn [upd_h fdata fhandles]. rewrite Hdd.
       split; [reflexivity|]. cbn [fhandles bhs]. now apply F2_set.
     + destruct (off <? 0); [|destruct (bclosed b); [|destruct (bro b)]]; cbn [snd]; tauto.
   - (* WriteString *)
@@ -465,7 +554,7 @@ Proof.
     + destruct (bclosed b) eqn:Ecl; [|destruct (bro b) eqn:Ero]; cbn [fst].
       * destruct Hs as [-> [-> _]]. cbn [upd_d upd_h fdata fhandles]. now apply Rel_same_h with (b := b).
       * destruct Hs as [-> [-> _]]. cbn [upd_d upd_h fdata fhandles]. now apply Rel_same_h with (b := b).
-      * destruct Hs as [-> [-> _]]. cbn [upd_d upd_h fdata fhandles].
+      * destruct Hs as [Hdd [-> _]]. rewrite upd_d_dflt. cbn [upd_h fdata fhandles]. rewrite Hdd.
         destruct Hhb as [Ha [Hc Hr]]. rewrite Ha, Nat2Z.id. split; [reflexivity|].
         cbn [fhandles bhs]. apply F2_set; [exact HF|].
         unfold hrel. destruct h; cbn in *. unfold zlen. repeat split; try lia; congruence.
@@ -489,10 +578,12 @@ Proof.
         destruct Hs as [-> _]; cbn [upd_d fdata fhandles]; try exact Hsame.
       split; [reflexivity|exact HF].
     + destruct (bclosed b); [|destruct (bro b); [|destruct (n <? 0)]]; cbn [snd]; tauto.
-  - (* Close *)
-    cbn [fst snd]. split; [|split; [reflexivity|discriminate]].
-    split; [reflexivity|]. cbn [fhandles bhs upd_h]. apply F2_set; [exact HF|].
-    destruct Hhb as [Ha [Hc Hr]]. unfold hrel. destruct h; cbn in *. auto.
+  - (* Close: a second Close reports the closed error and changes nothing *)
+    destruct Hhb as [Ha [Hc Hr]]. rewrite Hc. destruct (bclosed b) eqn:Ecl; cbn [fst snd].
+    + split; [exact Hsame|]. split; [reflexivity|discriminate].
+    + split; [|split; [reflexivity|discriminate]].
+      split; [reflexivity|]. cbn [fhandles bhs upd_h]. apply F2_set; [exact HF|].
+      unfold hrel. destruct h; cbn in *. auto.
   - (* Stat *)
     cbn [fst snd]. split; [exact Hsame|]. split; [|discriminate].
     cbn. unfold zlen. now rewrite Nat2Z.id.
@@ -604,6 +695,7 @@ Proof.
   - destruct (f_seek (fdata s) h off wh); reflexivity.
   - unfold f_truncate. destruct (hclosed h) eqn:Ec; [reflexivity|].
     destruct (hro h) eqn:Er; [reflexivity|]. destruct Hin; discriminate.
+  - destruct (hclosed h); reflexivity.
 Qed.
 
 (* the same for the specification *)
@@ -632,6 +724,7 @@ Proof.
     match goal with |- context [if ?c <? 0 then _ else _] => destruct (c <? 0) end; reflexivity.
   - destruct (bclosed b) eqn:Ec; [reflexivity|]. destruct (bro b) eqn:Er; [reflexivity|].
     destruct Hin; discriminate.
+  - destruct (bclosed b); reflexivity.
 Qed.
 
 (* ------------------------------------------------------------------------------------------ *)
@@ -743,3 +836,14 @@ Proof.
   intros Ho En. destruct o; try discriminate Ho; try reflexivity;
     cbn [op_handle] in Ho; inversion Ho; subst; unfold mf_step; now rewrite En.
 Qed.
+
+(* closing a closed handle is an error and changes nothing — model and specification *)
+Lemma c02_close_closed (s : fstate) (i : nat) (h : hnd) :
+  nth_error (fhandles s) i = Some h -> hclosed h = true ->
+  mf_step s (HClose i) = (s, RErr (E KClosed)).
+Proof. intros Eh Hc. unfold mf_step. now rewrite Eh, Hc. Qed.
+
+Lemma c02_spec_close_closed (t : bstate) (i : nat) (b : bh) :
+  nth_error (bhs t) i = Some b -> bclosed b = true ->
+  bf_step t (HClose i) = (t, PErr C_CLOSED).
+Proof. intros Eb Hc. unfold bf_step. now rewrite Eb, Hc. Qed.
